@@ -1,4 +1,5 @@
 # gocv calls: contracts at call sites, inlining, function values, interface invokes, builtins, select/channels.
+import re
 import z3
 from z3 import Int, IntVal, Bool, BoolVal, And, Or, Not, Implies, If, Select, Store, K, Lambda
 from ir import short
@@ -49,6 +50,13 @@ class CallMixin:
             if name.endswith('$bound'):
                 name = name[:-6]; args = list(bind) + list(args); bind = None
             return self.call_named(fr, st, ins, site, name, args, bind, cont, spawn)
+        if fv.origin == 'global:runner.RunTask' or (fv.origin or '').endswith('runner.RunTask'):
+            # runner.RunTask(ctx, f): runs f exactly once on another goroutine (assumed contract of gopool / go)
+            self.assumptions.add('runner.RunTask(ctx, f) runs f exactly once on another goroutine; tokens named in f\'s `takes` clause move with it')
+            task = args[1]
+            if isinstance(task, FuncV) and task.name is not None:
+                return self.call_named(fr, st, ins, site, task.name, [], task.bind, cont, spawn=True)
+            return cont(st, None)
         # dynamic function value
         self.oblige(st, fr, 'safety.nilfunc', short(fv.origin or 'value'), fv.id != 0, site)
         st.assume(fv.id != 0)
@@ -135,9 +143,11 @@ class CallMixin:
         vars = {}
         for (n, t), a in zip(ps, args): vars[n] = (a, t)
         if bind is not None:
-            for (n, t), a in zip(fvs, bind): vars[n] = (a, t)
-        if fv is not None and fv.bind:
-            pass
+            for (n, t), a in zip(fvs, bind):
+                if isinstance(a, Loc) and a.arrlen is None:
+                    vars[n] = (self.load_loc(st, a, facts=False), a.t)   # captured variable: the contract talks about its value
+                else:
+                    vars[n] = (a, t)
         env = {'st': st, 'old': None, 'vars': vars, 'fr': None}
         cname = self.shortfn(c.name)
         for n, (txt, ast) in enumerate(c.requires):
@@ -196,6 +206,32 @@ class CallMixin:
             if key not in st.sorts:
                 continue
             st.havoc(key)
+
+    # ------------------------------------------------------------------ rely (interference on shared atomics)
+    def apply_rely(self, fr, st, loc):
+        """before an atomic load of a word named in a `rely` clause of the function under verification:
+        other threads may have changed it, subject to the declared relation was -> now"""
+        top = fr
+        while top.parent is not None: top = top.parent
+        c = top.contract
+        if c is None or not c.relies: return
+        for ent, rel, txt in c.relies:
+            m = re.match(r'([\w.]+)(?:\[(\w+)\])?$', ent)
+            if not m: raise Unsupported('bad rely entry %r' % ent)
+            keys = self.mod_entry_keys(m.group(1), None)
+            if loc.key not in keys: continue
+            if m.group(2) is not None:
+                k = m.group(2)
+                kv = int(k) if k.isdigit() else self.const(k)[0].as_long()
+                if len(loc.idx) < 2: continue
+                cur = z3.simplify(loc.idx[1])
+                if not (z3.is_int_value(cur) and cur.as_long() == kv): continue
+            was = self.load_loc(st, loc, facts=False)
+            now = self.fresh(st, loc.t, 'rely')
+            env = {'st': st, 'old': None, 'vars': {'was': (was, loc.t), 'now': (now, loc.t)}, 'fr': fr}
+            st.assume(self.ev_bool(rel, env))
+            for (cn, srt), x in zip(self.leaves(loc.t), self.comps(now)):
+                st.wr(loc.key + cn, loc.idx, x, srt, log=False)
 
     # ------------------------------------------------------------------ builtins
     def builtin(self, fr, st, ins, site, name, args, cont):
